@@ -363,6 +363,8 @@ fn execute(scn: &BScn, property: &str) -> RunOutcome {
     // never played; excluded from the Ended clauses until the next reset / re-target
     let mut stale_ended = false;
     let mut chain_present = true;
+    // position at which the main animator turned Ended (where its final evaluation happened)
+    let mut ended_at_position: Option<Duration> = None;
     // a key change made by the user that the selector has not acted on yet: (key, deadline)
     let mut awaiting_user_key: Option<(Key, usize)> = None;
     // an Ended event naming the main entity was sent in the previous frame
@@ -400,6 +402,14 @@ fn execute(scn: &BScn, property: &str) -> RunOutcome {
             .entity(w.entity)
             .get::<AnimationSelector<Key, Target>>()
             .map(|s| s.timeline_key);
+        // unit for seek operations: the total of the timeline the model believes is installed
+        let seek_unit: Option<f64> = twin.as_ref().map(|t| {
+            let m = &cfg.tls[t.tl_index];
+            match oracle::merged_total(m) {
+                Some(t) => t,
+                None => m.parts.iter().map(|p| p.delay as f64 + p.duration as f64).fold(0.0, f64::max),
+            }
+        });
         for op in &frame.ops {
             let key_before_this_op = w
                 .app
@@ -447,6 +457,19 @@ fn execute(scn: &BScn, property: &str) -> RunOutcome {
                     }
                     BOp::RemoveSelector => {
                         e.remove::<AnimationSelector<Key, Target>>();
+                    }
+                    BOp::Seek { eighths_of_total, astronomical } => {
+                        let to = match astronomical {
+                            1 => Duration::MAX,
+                            2 => Duration::MAX - Duration::from_nanos(1),
+                            3 => Duration::MAX - Duration::from_millis(50),
+                            4 => Duration::from_secs(1_000_000_000_000_000),
+                            _ => {
+                                let unit = seek_unit.unwrap_or(1.0);
+                                Duration::from_secs_f64((unit * *eighths_of_total as f64 / 8.0).min(1.0e12))
+                            }
+                        };
+                        e.get_mut::<Animator<Target>>().unwrap().timeline_position = to;
                     }
                     BOp::EditTimelines { key, tl } => {
                         if let Some(mut sel) = e.get_mut::<AnimationSelector<Key, Target>>() {
@@ -533,6 +556,9 @@ fn execute(scn: &BScn, property: &str) -> RunOutcome {
             match op {
                 BOp::PauseTime(_) | BOp::TimeSpeed(_) | BOp::SpawnExtra | BOp::DespawnExtra | BOp::RemoveChain | BOp::InsertChain => {}
                 BOp::ExtraRemoveTarget | BOp::ExtraInsertTarget | BOp::ExtraReplaceAnimator(_) => {}
+                BOp::Seek { astronomical, .. } => {
+                    out.count(if *astronomical > 0 { "op.seek_astronomical" } else { "op.seek" });
+                }
                 BOp::InsertSelector => {
                     if !selector_was_present {
                         out.count("op.selector_inserted_later");
@@ -999,7 +1025,7 @@ fn execute(scn: &BScn, property: &str) -> RunOutcome {
                 let total = total.unwrap();
                 let min_delay = min_delay.unwrap();
                 // (a) time is conserved
-                let grown = pos_base + delta;
+                let grown = pos_base.saturating_add(delta);
                 if after.state != AnimationState::Ended {
                     // (on a re-target frame "from its beginning" allows the position to be 0 or
                     // one frame into the new timeline, whichever side of the animation system
@@ -1058,7 +1084,13 @@ fn execute(scn: &BScn, property: &str) -> RunOutcome {
                     // terminal values within float rounding of the evaluation time
                     // (oracle::band_tolerance), unless the timeline approaches its end through a
                     // (near-)discontinuity. Past the band, and on the grid, the usual tolerance.
-                    let firmly = total.map(|t| cfg.grid || pos_after_s > t + 1e-6 * t.abs().max(1e-3)).unwrap_or(false);
+                    // (what counts is the position at which the animator ended, i.e. at which the
+                    // final evaluation happened - a later seek moves the position, not the values)
+                    if state_base != AnimationState::Ended {
+                        ended_at_position = Some(after.pos);
+                    }
+                    let evaluated_at_s = ended_at_position.unwrap_or(after.pos).as_secs_f64();
+                    let firmly = total.map(|t| cfg.grid || evaluated_at_s > t + 1e-6 * t.abs().max(1e-3)).unwrap_or(false);
                     let in_band = !firmly && total.is_some();
                     if in_band {
                         out.count("probe.ended_inside_rounding_band_of_end_instant");
@@ -1188,7 +1220,7 @@ fn execute(scn: &BScn, property: &str) -> RunOutcome {
             // 3. nothing restarts unless a key change was acted on: in particular re-assigning the
             //    current key keeps the position growing and the state moving forward only
             if !retargeted && before.enabled && twin.is_some() {
-                let restarted = (after.state != AnimationState::Ended && after.pos != pos_base + delta)
+                let restarted = (after.state != AnimationState::Ended && after.pos != pos_base.saturating_add(delta))
                     || (state_base == AnimationState::Ended && after.pos != pos_base)
                     || rank(after.state) < rank(state_base);
                 if restarted {
